@@ -1942,7 +1942,16 @@ class H2Connection:
         transition the state of the stream, so we need to pass it to the
         appropriate stream.
         """
-        stream = self._get_stream_by_id(frame.stream_id)
+        try:
+            stream = self._get_stream_by_id(frame.stream_id)
+        except StreamClosedError:
+            # We no longer have the stream around, but that must not change
+            # what kind of error this is: a connection error of type
+            # PROTOCOL_ERROR, however the stream was closed.
+            raise ProtocolError(
+                "Unexpected CONTINUATION frame on closed stream %d" %
+                frame.stream_id
+            )
         stream.receive_continuation()
         assert False, "Should not be reachable"
 
